@@ -64,8 +64,18 @@ ASSUMPTIONS = ["node ids are non-negative ints; element symbols are ASCII letter
                "standard_order is a covered value of its own (the signature prints 0 vs 0.0, the nauty label '' vs '0.0')",
                "undirected simple graphs without self-loops (networkx.Graph): premise wf of the theorems; or digraphs without self-loops "
                "(networkx.DiGraph, at most one arc per ordered pair, antiparallel arcs allowed): premise dwf of the C08_digraph_* theorems; "
-               "multigraphs are outside the property (not examined)"]
-TESTED_NOT_PROVED = ["history / provenance independence: in the model a graph IS its node list and edge list (no graph-level attributes, no object "
+               "multigraphs are outside the property (not examined)",
+               "attribute values are compared as Python prints them: order=1 and order=1.0, hcount=3 and hcount=3.0, hcount=1 and hcount=True "
+               "are ==-equal but give different signatures with every back-end (repr); the harness feeds floats for orders and ints / bools "
+               "for node attributes, as SynKit's own graph builders do (audit A2-3)"]
+TESTED_NOT_PROVED = ["wl / morgan, clause 'the signature is a function of the graph': C08_signature_function_wl_morgan takes ONE ranking for both "
+                     "presentations - that the implementation's WL colours / Morgan labels do not depend on the insertion order is a hidden "
+                     "premise, monitored only: the oracle clause sig-function/wl, sig-function/morgan demands equal signatures AND equal "
+                     "canonical graphs for re-inserted same-id presentations on every case (audit A2-2: the theorem is PARTIAL for the clause)",
+                     "SynRule: the joint-bijection clause is proved in the direction isomorphic => equal and REFUTED for the three-signature "
+                     "comparison in the other direction (C08_value_objects_synrule_refuted); the repaired implementation (rc signature over "
+                     "both sides of typesGH, 4537ada) is judged by the oracle on rules built from ITS graphs (case kind itsrule), not modelled",
+                     "history / provenance independence: in the model a graph IS its node list and edge list (no graph-level attributes, no object "
                      "identity, no canonicaliser state), so the modelled functions cannot look at anything else by construction; that the "
                      "implementation does not either is checked by the oracle on every graph case (inputs derived from earlier outputs: "
                      "relabel_nodes / copy+edit / subgraph of canonical twins; graph-level attributes incl. tag look-alikes; the same graph and "
@@ -1151,9 +1161,55 @@ def _oracle_rule(case):
     return fails[:3]
 
 
+def _nx_its(g):
+    """An ITS graph (every node carries typesGH = (reactant tuple, product tuple), orders are (before, after) pairs)."""
+    import networkx as nx
+    G = nx.Graph()
+    for n, a in g["nodes"]:
+        a = dict(a)
+        a["typesGH"] = tuple((t[0], bool(t[1]), int(t[2]), int(t[3]), list(t[4])) for t in a["typesGH"])
+        G.add_node(n, **a)
+    for u, v, a in g["edges"]:
+        a = dict(a)
+        a["order"] = tuple(float(x) for x in a["order"])
+        if "standard_order" in a:
+            a["standard_order"] = float(a["standard_order"])
+        G.add_edge(u, v, **a)
+    return G
+
+
+def _oracle_itsrule(case):
+    """SynRule built from ITS graphs (not from reaction strings): for every pair of the family, equal rules must have isomorphic
+    ITS graphs - ONE bijection preserving both sides of typesGH and the (before, after) orders - and with the exact back-end
+    isomorphic ITS graphs must give equal rules (audit finding A2-1: the reaction-centre signature covered the reactant side only)."""
+    from synkit.Rule.syn_rule import SynRule
+    fails = []
+    for be in BACKENDS:
+        c = _canoniser(be)
+        for kw in ({}, {"implicit_h": False}):
+            rules = [SynRule(_nx_its(g), canonicaliser=c, **kw) for g in case["rules"]]
+            views = [_rule_views(r) for r in rules]
+            for i, j in itertools.combinations(range(len(rules)), 2):
+                eq = rules[i] == rules[j]
+                iso = _iso(views[i], views[j]) is not None
+                if eq and hash(rules[i]) != hash(rules[j]):
+                    fails.append(_fail("value-objects", "equal SynRules with different hashes (%s, %r): rules %d, %d of %s" % (be, kw, i, j, case["name"])))
+                if eq and not iso:
+                    fails.append(_fail("synrule-eq/%s" % be, "SynRules built from ITS graphs compare equal but no bijection preserves typesGH and the "
+                                       "orders (%r): A=%r B=%r" % (kw, case["rules"][i], case["rules"][j])))
+                if be == "nauty" and iso and not eq:
+                    fails.append(_fail("synrule-eq/nauty", "isomorphic ITS graphs give unequal SynRules with the exact back-end (%r): A=%r B=%r"
+                                       % (kw, case["rules"][i], case["rules"][j])))
+                if len(fails) >= 3:
+                    return fails[:3]
+    return fails[:3]
+
+
 def oracle(case):
     _quiet()
     k = case["kind"]
+    if k == "itsrule":
+        return _oracle_itsrule(case)
     if k == "graph":
         return _oracle_graph(case)
     if k == "batch":
@@ -1749,6 +1805,46 @@ RULES = [
 ]
 
 
+def _its(els, before_after, product=None, ids=None):
+    """ITS graph as JSON: els = element per atom; before_after = [(u, v, before, after)]; product = {atom: {"charge": c, "aromatic": b}}
+    overrides of the product-side tuple."""
+    ids = ids or list(range(1, len(els) + 1))
+    product = product or {}
+    nodes = []
+    for i, el in zip(ids, els):
+        p = product.get(i, {})
+        nodes.append([i, {"element": el, "aromatic": False, "hcount": 0, "charge": 0, "atom_map": i,
+                          "typesGH": [[el, False, 0, 0, []], [el, bool(p.get("aromatic", False)), 0, int(p.get("charge", 0)), []]]}])
+    edges = [[u, v, {"order": [float(b), float(a)], "standard_order": float(b) - float(a)}] for u, v, b, a in before_after]
+    return {"nodes": nodes, "edges": edges}
+
+
+def _itsrule_cases(rng):
+    """Rules built from ITS graphs whose product side differs from the reactant side on atoms that a symmetry of ONE fragment can
+    move: two double bonds closing to a four-ring (1=2, 3=4 -> ring 1-2-3-4), a metathesis square, a three-ring opening.  Each case is
+    a family: every subset of at most two atoms carries a product-side charge (or aromatic flag); all pairs are judged."""
+    skeletons = [
+        ("two-double-bonds-to-ring4", "CCCC", [(1, 2, 2, 1), (3, 4, 2, 1), (1, 4, 0, 1), (3, 2, 0, 1)]),
+        ("metathesis-square", "CCCC", [(1, 2, 2, 0), (3, 4, 2, 0), (1, 4, 0, 2), (3, 2, 0, 2)]),
+        ("ring3-opening", "CCC", [(1, 2, 1, 1), (2, 3, 1, 1), (1, 3, 1, 0)]),
+        ("ring4-CO", "CCOO", [(1, 2, 2, 1), (3, 4, 2, 1), (1, 4, 0, 1), (3, 2, 0, 1)]),
+    ]
+    out = []
+    for nm, els, ba in skeletons:
+        n = len(els)
+        subsets = [()] + [(i,) for i in range(1, n + 1)] + list(itertools.combinations(range(1, n + 1), 2))
+        for what in ("charge", "aromatic"):
+            rules = [_its(els, ba, {i: {what: 1} for i in sub}) for sub in subsets]
+            # one renumbered copy of a two-atom member: isomorphic, must compare equal with the exact back-end
+            pm = list(range(1, n + 1))
+            rng.shuffle(pm)
+            m = dict(zip(range(1, n + 1), [10 + 3 * x for x in pm]))
+            sub = subsets[-1]
+            rules.append(_its(els, [(m[u], m[v], b, a) for u, v, b, a in ba], {m[i]: {what: 1} for i in sub}, ids=[m[i] for i in range(1, n + 1)]))
+            out.append(dict(kind="itsrule", sub="itsrule", rules=rules, name="itsrule/%s-%s" % (nm, what)))
+    return out
+
+
 def _renumber_rsmi(rsmi, rng):
     import re
     maps = sorted({int(m) for m in re.findall(r":(\d+)\]", rsmi)})
@@ -1840,7 +1936,7 @@ def gen_cases(tier, rng):
         g = _random_graph(rng, 7)
         gs = [g] + [_reinsert(_renumber(g, rng, "keep"), rng) for _ in range(2)] + [_mutant(g, rng) for _ in range(4)]
         cases.append(dict(kind="batch", sub="batch-random", graphs=gs, distinct_classes=False))
-    cases += _rule_cases(rng, 30 if tier == "quick" else 66)
+    cases += _rule_cases(rng, 30 if tier == "quick" else 66) + _itsrule_cases(rng)
     cases += _its_cases(rng, tier) + _degenerate_cases(rng) + _size_cases(rng, tier) + _digraph_cases(rng, tier) + _missing_attr_cases(rng) + _string_id_cases(rng) + _allperm_cases(rng, tier)
     # the symmetric families are the expensive cases (cube, Petersen: hundreds of leaves and _refine calls each):
     # spread them over the shards instead of putting them into one
@@ -1870,7 +1966,11 @@ LEVEL_TEXT = ("Machine-checked proof (Coq) over an executable model of the four 
               "exhaustive small scopes, symmetric families and seeded random graphs.")
 LEVEL_NOTE = ("Trusted: Coq kernel + vm_compute; the hand-written model and the harness encoders; networkx Graph semantics; collision-freeness of "
               "truncated SHA-256 on the strings compared (explicit premise, monitored). WL colours / Morgan labels are oracle inputs of the "
-              "model. SynRule is modelled as three fragment graphs; its construction from an ITS graph is checked by the oracle only.")
+              "model: 'signature = function of the graph' is proved for wl / morgan only GIVEN one ranking for both presentations (that the "
+              "rankings do not depend on the presentation is monitored, not proved). SynRule is modelled as three fragment graphs: the "
+              "three-signature comparison is proved componentwise-exact and joint-complete, and REFUTED as a characterisation of 'one "
+              "bijection' (repaired in the code by signing the rc graph with both sides of typesGH; that and the construction from an ITS "
+              "graph are checked by the oracle only).")
 TECHNIQUE = ("Coq 8.16 proof about an executable Gallina model (generic individualisation-refinement theory lib/IRCore + lib/IRSearch "
              "instantiated for nauty.py; separator-parsing injectivity of the serialisation and label strings) + per-run correspondence "
              "(vm_compute digest vs implementation) + independent brute-force isomorphism oracle")
